@@ -84,3 +84,16 @@ struct Escapes {
     6: list<string> many = ["x\ny", "p\\q"],
     7: optional i32 plain,
 }
+
+// repeated elements and signed / hexadecimal spellings: the default is the value the literal denotes, element by element
+struct Spelled {
+    1: list<i32> rgb = [0, 0, 0],
+    2: list<string> rep = ["a", "b", "a"],
+    3: list<list<i32>> grid = [[1, 1], [1, 1]],
+    4: i32 neg_hex = -0x10,
+    5: i64 big_hex = 0x7fffffff,
+    6: optional i16 neg_small = -1,
+    7: list<i32> signed_items = [-1, 0x10, -0x2],
+    8: optional double neg_exp = 1.5e-3,
+    9: double neg_dbl = -2.5,
+}
